@@ -47,6 +47,7 @@ CLASSES = {
     "ast.Call#help": {"func": "obj:ast.Attribute#dotted", "args": "list1[union[obj:AnyNode|obj:ast.Attribute#of]]", "keywords": "list0", "starargs": "none", "kwargs": "none",
                       "lineno": "int", "col_offset": "int", "end_lineno": "int", "end_col_offset": "int"},
     "AnyNode": {},
+    "ast.arg": {"arg": "str", "lineno": "int", "col_offset": "int", "end_lineno": "int", "end_col_offset": "int"},
     # string builders: the two fields that carry a pending `p` prefix from handle_fstring to concatenate_strings
     "ast.JoinedStr": {"values": "abslist[obj:StrPart]", "lineno": "int", "col_offset": "int", "end_lineno": "int", "end_col_offset": "int"},
     "ast.Constant#lit": {"value": "lit", "kind?": "str", "lineno": "int", "col_offset": "int", "end_lineno": "int", "end_col_offset": "int"},
